@@ -107,3 +107,23 @@ def check_loop(chk, inst, res, where, *, jaxpr=P("jaxpr"), eqns=None, const_wrap
     elif okret and is_t(ret, "fam"):
         chk.require(ret[2] == mk_elem(read), rule, inst + "/outputs-wrapped", "outputs are returned as read", derived=show(ret[2])[:200], expected="the values read, unchanged", where=where)
     return dict(outvals=outvals, leaves=leaves)
+
+
+def bind_context_ok(prog, ci, fn):
+    """every re-bind of an equation (primitive.bind / handler.dispatch / the propagation rule) is evaluated inside `with eqn.ctx.manager:` - decided on the
+    evaluated method (calls reached through extracted helpers included), not on the statement nesting of one function"""
+    from .terms import Evaluator, is_t
+
+    ev = Evaluator(prog)
+    ev.eval_fn(fn, ci.module, ci)
+    sites, outside = 0, []
+    for call, ctxs in ev.call_ctx.items():
+        f = call[1]
+        name = f[2] if is_t(f, "attr") else (f[1].split(".")[-1] if is_t(f, "global") else None)
+        if name not in ("bind", "dispatch", "default_propagation_rule"):
+            continue
+        for withs in ctxs:
+            sites += 1
+            if not any(is_t(w, "attr") and w[2] == "manager" and is_t(w[1], "attr") and w[1][2] == "ctx" for w in withs):
+                outside.append(name)
+    return sites > 0 and not outside, f"{sites} re-bind site(s); outside the context: {outside}" if outside or not sites else f"{sites} re-bind site(s), all inside `with eqn.ctx.manager`"
